@@ -123,7 +123,7 @@ def run_items(items: list[Item], chk: Check, *, witnesses: bool = True, max_step
                 if cov.path.stuck:
                     continue
                 try:
-                    cl = e1.compare_end_state(cov, rec)
+                    cl = e1.compare_end_state(cov, rec, set(it.prog.accounts))
                 except (zeval.Unbound, zeval.Unsupported) as e:
                     m.unevaluable.append((cov.index, f"output: {e}"))
                     continue
